@@ -71,7 +71,9 @@ let () =
               let ctag = coqz_of_z tag and cargs = List.map coqz_of_z args in
               let m = List.map z_of_coqz (run ctag cargs) in
               let s = List.map z_of_coqz (spec ctag cargs) in
-              if not (List.length m = List.length impl && List.for_all2 ZA.equal m impl) then begin
+              (* a model output [-8] means: no executable model for this tag (real-valued model) *)
+              let nomodel = (match m with [y] -> ZA.equal y any | _ -> false) in
+              if not nomodel && not (List.length m = List.length impl && List.for_all2 ZA.equal m impl) then begin
                 incr mm; Printf.printf "MODEL %d %s || model=%s\n" !n line (show m) end;
               if not (spec_match impl s) then begin
                 incr sm; Printf.printf "SPEC %d %s || spec=%s\n" !n line (show s) end)
